@@ -282,15 +282,19 @@ type vfState struct {
 // queued through the real Lock with symbolic Count/priority and are assumed to
 // have queued (no reply).  waiterProfile selects what is symbolic in the waiters.
 func vfBuildState(env *vfEnv, key [16]byte, H int, W int, holderProto int, waiterProto int) *vfState {
+	vfHoldEFlag = 0x0200
 	return vfBuildStateE(env, key, H, W, holderProto, waiterProto, 3)
 }
+
+// vfHoldEFlag: expiry flags of the holders a state is built with (0x0200: never persisted; 0x0100: persisted at once).
+var vfHoldEFlag uint16 = 0x0200
 
 // vfBuildStateE: as vfBuildState with the holders' expiry (seconds) chosen by the caller.
 func vfBuildStateE(env *vfEnv, key [16]byte, H int, W int, holderProto int, waiterProto int, holdE uint16) *vfState {
 	st := &vfState{env: env, key: key}
 	for i := 0; i < H; i++ {
 		c := env.newCmd(protocol.COMMAND_LOCK, key, vfLockId(uint8(1+i)))
-		c.Count, c.Expried, c.ExpriedFlag = 0xffff, holdE, 0x0200
+		c.Count, c.Expried, c.ExpriedFlag = 0xffff, holdE, vfHoldEFlag
 		n := len(env.replies)
 		env.lock(holderProto, c)
 		vfAssume(len(env.replies) == n+1 && env.replies[n].result == protocol.RESULT_SUCCED)
